@@ -620,3 +620,41 @@ pub fn c06_timer_crafted_suspect<S: Src>(s: &mut S) {
     vassert!(rt.ns <= 1, "c18: a suspicion timer sends at most one datagram");
     vcover!(token == pre.token && pre.by_addr(member_id.addr).map(|r| member_id.gen > r.0.gen).unwrap_or(false), "timer naming a newer identity than the record");
 }
+
+/// `gossip()` on the *real* backlog and the real send buffer (no stubs): one
+/// pending update with two transmissions left, one active member. The update is
+/// piggybacked verbatim on exactly two datagrams and then leaves the backlog.
+pub fn c15_gossip_real<S: Src>(s: &mut S) {
+    let mut sh = Shape::k(0);
+    sh.probe = false;
+    sh.fanout = Some(1);
+    let mut f = arb_foca(s, sh);
+    let a = Id::new(11, s.u8());
+    s.assume(f.identity.addr != 11);
+    let mut inner = Vec::with_capacity(4);
+    inner.push(crate::Member::new(a, s.u16(), State::Alive));
+    f.members = crate::member::Members::verif_raw(inner, 0, 1);
+    f.connection_state = ConnectionState::Connected;
+    f.broadcast_handler = LogHandler::new(0, 0xFF);
+    let g = s.u8();
+    let inc = s.u16();
+    let mut upd = Vec::with_capacity(MEM);
+    upd.extend_from_slice(&[200, g, (inc >> 8) as u8, inc as u8, 1]);
+    f.updates.verif_push_raw(crate::Addr(200), upd, 2);
+    let mut rt = LogRt::new();
+    let r = f.gossip(&mut rt);
+    vassert!(r.is_ok() && rt.ns == 1 && rt.sent[0].dst == a, "c15: gossip reaches the active member");
+    let d = &rt.sent[0];
+    vassert!(rt.tag(0) == 8 && d.len == HDR + 2 + MEM && d.data[HDR] == 0 && d.data[HDR + 1] == 1
+        && d.data[HDR + 2] == 200 && d.data[HDR + 3] == g && d.data[HDR + 4] == (inc >> 8) as u8 && d.data[HDR + 5] == inc as u8 && d.data[HDR + 6] == 1,
+        "c15: the pending update is piggybacked verbatim behind its count");
+    vassert!(f.updates_backlog() == 1 && f.updates.verif_snapshot()[0].0 == 1, "c15: each transmission consumes exactly one from the budget");
+    let mut rt2 = LogRt::new();
+    let r2 = f.gossip(&mut rt2);
+    vassert!(r2.is_ok() && rt2.ns == 1 && rt2.sent[0].len == HDR + 2 + MEM && rt2.sent[0].data[HDR + 1] == 1, "c15: piggybacked until the budget is used up");
+    vassert!(f.updates_backlog() == 0, "c15: an update leaves the backlog after exactly max_transmissions datagrams");
+    let mut rt3 = LogRt::new();
+    let r3 = f.gossip(&mut rt3);
+    vassert!(r3.is_ok() && rt3.ns == 1 && rt3.sent[0].len == HDR + 2 && rt3.sent[0].data[HDR + 1] == 0, "c15: piggybacked at most max_transmissions times");
+    vcover!(g != 0, "symbolic update content");
+}
